@@ -473,6 +473,35 @@ func reqFlag(fl w2aFlavour, b []byte, nolazy bool) (protoreflect.Message, bool, 
 	return m, out.Flags&protoiface.UnmarshalInitialized != 0, err
 }
 
+var reqFA4Cache = map[protoreflect.FullName]bool{}
+
+// reqFA4Prone: md reaches (or is) a message type that lies on a cycle and reaches a required field.
+func reqFA4Prone(md protoreflect.MessageDescriptor) bool {
+	if v, ok := reqFA4Cache[md.FullName()]; ok {
+		return v
+	}
+	seen := map[protoreflect.FullName]bool{}
+	var walk func(d protoreflect.MessageDescriptor) bool
+	walk = func(d protoreflect.MessageDescriptor) bool {
+		if seen[d.FullName()] {
+			return false
+		}
+		seen[d.FullName()] = true
+		if reqInCycle(d) && reqReaches(d) {
+			return true
+		}
+		for _, fd := range reqSubMessages(d) {
+			if sub := reqValueMessage(fd); sub != nil && walk(sub) {
+				return true
+			}
+		}
+		return false
+	}
+	v := walk(md)
+	reqFA4Cache[md.FullName()] = v
+	return v
+}
+
 func reqKnownFA4(c *Ctx) {
 	c.Known("FA4", "C10", "needsInitCheck memoises false for a message type on a cycle while the cycle is being explored; its partial sub-messages are then never checked on the table-driven path")
 	c.Stat("known_FA4")
@@ -571,8 +600,9 @@ func reqDecodeChecks(c *Ctx, t *reqTarget, fl w2aFlavour, b []byte, canonical bo
 			c.PropFail("C10", "Unmarshal with AllowPartial fails"+lz+": "+err.Error()+" "+what, HexB(b))
 			continue
 		}
-		if !fl.slow && nolazy && !(flag && want && facts.allUnderCycle && !facts.allUnderLateOO) {
-			// (the model has the needsInitCheck of the descriptors, not the order-dependent memo: FA4)
+		if !fl.slow && nolazy && !reqFA4Prone(fl.md) {
+			// (the model has the needsInitCheck of the descriptors, not the order-dependent memo of
+			// finding FA4: no flag comparison for types that reach a cycle with required fields)
 			c.Case("req", "flag", []string{t.id, HexB(b)}, []string{Tok(flag)})
 		}
 		if flag {
